@@ -67,6 +67,7 @@ class ConvWorld(QueryWorld):
         self.ids = [T(k) for k in OFFS]
         self.materialise_timelines(self.ids)
         self.node_order = node_order
+        self.id_order_asked = []
         self.new_graphs = []
 
     def resolve_name(self, ip, name, node):
@@ -78,6 +79,8 @@ class ConvWorld(QueryWorld):
 
     def compare(self, ip, a, sym, b, node):
         if isinstance(a, NodeV) and isinstance(b, NodeV) and sym in ("<", "<=", ">", ">="):
+            if a.role != b.role:
+                self.id_order_asked.append((a.role, sym, b.role, getattr(node, "lineno", 0)))
             ia, ib = self.node_order.index(a.role), self.node_order.index(b.role)
             return {"<": ia < ib, "<=": ia <= ib, ">": ia > ib, ">=": ia >= ib}[sym]
         return super().compare(ip, a, sym, b, node)
@@ -319,9 +322,16 @@ def _judge(rep, construct, cls, mname, recip, shape, w, val, r, order):
         return
     target_directed = mname == "to_directed"
     want_cls = "DynDiGraph" if target_directed else "DynGraph"
+    if isinstance(val, Opaque):
+        raise Unsupported(None, "%s returns a value the interpretation does not know: %r" % (mname, val))
     if not isinstance(val, RecGraph) or val.cls != want_cls:
         rep.finding("C16.graph", construct, "wrong-class", "%s returns %r, expected a new %s" % (mname, val, want_cls), witness=wit)
         return
+    if w.id_order_asked:
+        a, sym, b, line = w.id_order_asked[0]
+        rep.finding("C16.graph", construct, "orders-node-ids",
+                    "%s compares the node ids %s %s %s: node ids need only be hashable, and a graph whose ids cannot be ordered (1 and 'a') "
+                    "makes the conversion raise TypeError" % (mname, a, sym, b), witness=wit, line=line)
     if w.effects:
         rep.finding("C16.graph", construct, "writes-source", "%s writes the source graph: %s" % (mname, w.effects[0][0]), witness=wit,
                     line=w.effects[0][1])
